@@ -23,6 +23,7 @@ const (
 	KNull
 	KError
 	KPanic
+	KErrors // user code reports two failures at once (a gqlerror.List of two entries): two entries at the position's path
 )
 
 // Obj is an entity of the world.
@@ -146,8 +147,13 @@ func (e *exec) deferLabel(ds ast.DirectiveList) (bool, string) {
 	if d == nil || !e.deferOn {
 		return false, ""
 	}
-	if !e.boolArg(d, true) {
-		return false, ""
+	if a := d.Arguments.ForName("if"); a != nil {
+		// `if` present: deferred only for the value true. gqlgen declares `if: Boolean = true` (nullable): what an
+		// explicit null or a variable without a value means is not fixed by the property - whether the fragment is
+		// then deferred or inlined only moves the data between payloads; the reference inlines, as gqlgen does
+		if v, err := a.Value.Value(e.vars); err != nil || v != true {
+			return false, ""
+		}
 	}
 	label := ""
 	if a := d.Arguments.ForName("label"); a != nil {
@@ -460,6 +466,10 @@ func (e *exec) field(objType string, obj *Obj, c *collected, path string) (strin
 	}
 	out := e.w.Resolve(objType, pid, f.Name, argMap(f, e.vars))
 	switch out.K {
+	case KErrors:
+		e.fail(path)
+		e.fail(path)
+		return e.nullAt(t, path, true)
 	case KError, KPanic:
 		e.fail(path)
 		return e.nullAt(t, path, true)
